@@ -59,8 +59,8 @@ PLANS["C07"] = {
 }
 
 PLANS["C17"] = {
-    "quick": [J("window21", "p=1,f=1", 30), J("window21wrap", "c=1,f=1", 60), J("window10", "p=1,f=1", 15), J("window3neg", "c=1,f=1", 30), J("c17-longrun", "quick", 120, test="TestE3", shards=4), J("c17-slots", "quick", 120, test="TestE3", shards=1), J("c11-idwrap", "quick", 120, test="TestE3", shards=1)],
-    "thorough": [J("window21", "p=2,f=2,c=1,s=1", 400), J("window21wrap", "p=2,f=2,c=1,s=1", 400), J("window10", "p=2,f=2,c=1", 200), J("window3neg", "p=2,f=2,c=1", 200), J("c17-longrun", "thorough", 600, test="TestE3", shards=4), J("c17-slots", "thorough", 120, test="TestE3", shards=1)],
+    "quick": [J("window21", "p=1,f=1", 30), J("window21x", "p=2,f=1", 30), J("window21wrap", "c=1,f=1", 60), J("window10", "p=1,f=1", 15), J("window3neg", "c=1,f=1", 30), J("c17-longrun", "quick", 120, test="TestE3", shards=4), J("c17-slots", "quick", 120, test="TestE3", shards=1), J("c11-idwrap", "quick", 120, test="TestE3", shards=1)],
+    "thorough": [J("window21", "p=2,f=2,c=1,s=1", 400), J("window21x", "p=3,f=1,s=2", 300), J("c11-idwrap", "thorough", 120, test="TestE3", shards=1), J("window21wrap", "p=2,f=2,c=1,s=1", 400), J("window10", "p=2,f=2,c=1", 200), J("window3neg", "p=2,f=2,c=1", 200), J("c17-longrun", "thorough", 600, test="TestE3", shards=4), J("c17-slots", "thorough", 120, test="TestE3", shards=1)],
 }
 PLANS["C18"] = {
     "quick": [J("connect", "p=1,f=1", 45), J("connectclean", "p=1,f=1", 45)],
